@@ -50,6 +50,10 @@ def inputs(tmp):
         'ref r shape bc ref q shape bs',
         'other o ref r shape o',
         'wire w wire w2 ref r list w , w2',
+        'hex #ff hex #0a',
+        'hex #FF circle a',
+        'Hex #aB SQUARE q',
+        'circle  a\tsquare b',
     ]
     out = [{'kind': 'str', 'text': t} for t in texts]
     files = {
